@@ -657,7 +657,8 @@ Lemma k_close_spec : forall k fd,
   next_fd k' = next_fd k /\ flt k' = flt k /\ nwait k' = nwait k /\
   (forall e, In e (ep k') <-> In e (ep k) /\ (k_open k fd <> None -> en_fd e <> fd)) /\
   (NoDup (map en_fd (ep k)) -> NoDup (map en_fd (ep k'))) /\
-  (forall x, x <> fd -> (forall v, k_open k fd = Some v -> x <> vpeer v) -> k_get k' x = k_get k x) /\
+  (forall x, x <> fd -> (forall v, k_open k fd = Some v -> (vkind v =? K_PIPE_R) || (vkind v =? K_PIPE_W) = true -> x <> vpeer v) ->
+             k_get k' x = k_get k x) /\
   (forall x v, k_get k x = Some v -> exists v', k_get k' x = Some v' /\ vkind v' = vkind v /\ vpeer v' = vpeer v /\
                                      (x <> fd -> vclosed v' = vclosed v)) /\
   (forall x, k_get k x = None -> k_get k' x = None) /\
@@ -700,9 +701,9 @@ Proof.
     + apply B. congruence.
   - intros ND. cbn [ep k_set_ep]. rewrite E2. apply NoDup_fd_rem. assumption.
   - intros x N P. rewrite k_get_set_ep, G2.
-    assert (x <> vpeer v) by (apply P; reflexivity).
     assert (Q : k_get k1 x = k_get k x) by (rewrite G1; destruct (Z.eqb_spec x fd); [contradiction|reflexivity]).
-    destruct ((vkind v =? K_PIPE_R) || (vkind v =? K_PIPE_W)); [|exact Q].
+    destruct ((vkind v =? K_PIPE_R) || (vkind v =? K_PIPE_W)) eqn:PK; [|exact Q].
+    assert (x <> vpeer v) by (apply P; [reflexivity|exact PK]).
     destruct (k_get k1 (vpeer v)); [|exact Q]. destruct (Z.eqb_spec x (vpeer v)); [contradiction|exact Q].
   - intros x w H. rewrite k_get_set_ep, G2.
     assert (Q : exists w', k_get k1 x = Some w' /\ vkind w' = vkind w /\ vpeer w' = vpeer w /\ (x <> fd -> w' = w)).
